@@ -133,8 +133,11 @@ fn private_is_dirty(
                         // start_self, so a file created there later stays dirty for ever.
                         f.is_override = false;
                         f.failed_runid = Some(0);
-                        f.save(ptx)?;
-                        f.refresh(ptx)?;
+                        if !ptx.is_read_only() {
+                            // (redo-ood only looks: its transaction is never committed)
+                            f.save(ptx)?;
+                            f.refresh(ptx)?;
+                        }
                         debug_assert!(!f.is_generated());
                     }
                 } else {
